@@ -1,6 +1,9 @@
 (* Case-line interpreter for C08.
    C <chunk> <chunk> ...            TlsClientHelloReader::new(), add_bytes per chunk (chunk: hex, "-" = empty)
    P <cap> <k>:<chunk> <k>:<chunk>  process_ipv4_packet on a TtlCache of capacity <cap>; <k> = flow number
+   (P, W: the harness sends every segment in an IPv4 datagram whose buffer / Ethernet frame is zero-padded to the
+    minimum frame size; the payload is what the IP total length delimits, which is what the model is given.
+    W order: s / c = bursts, w<ms> = first segment, <ms> ms of silence, then the rest; the model is order-independent.)
    W <workers> <nconn> <order> <chunk> ...   huginn_net_tls::WorkerPool (batch 32), <nconn> connections delivering the same
                                     chunks back-to-back; result "<number of results> <token | MIXED | ->".  MODEL: every
                                     connection behaves as one connection alone on a worker's flow table (C08_analyzer holds
